@@ -101,7 +101,8 @@ def main() -> int:
         for i in range(12):
             noise(i)
     for i, req in enumerate(reqs):
-        for r in range(cfg.get("repeat", 1)):
+        # a jit-cached helper is exported three times in a row in every configuration
+        for r in range(max(cfg.get("repeat", 1), 3) if req.startswith("hand:jitzoo") else cfg.get("repeat", 1)):
             try:
                 d = one(req)
             except Exception as exc:  # noqa: BLE001
